@@ -37,23 +37,18 @@ VARIABLES disk,     \* table currently in the file
           job       \* [c, meth, md, header, rows, col]  (rows = the data rows read at Begin)
 bvars == <<disk, buf, pc, job>>
 
+\* the machine itself is BulkMachine.tla (uninterpreted cell semantics; tlaps/C16_Machine.tla proves C16's clauses about
+\* it for tables of any length), instantiated with the scalar methods of the converter specification
+BM == INSTANCE BulkMachine WITH Fails <- LAMBDA j, row : RowFails(j.c, j.meth, j.md, row, j.col),
+                                Conv <- LAMBDA j, row : ConvertRow(j.c, j.meth, j.md, row, j.col)
 Begin(c, meth, md, hasHeader, col) ==
-  /\ pc = "idle"
-  /\ job' = [c |-> c, meth |-> meth, md |-> md, col |-> col,
+  BM!BeginG([c |-> c, meth |-> meth, md |-> md, col |-> col,
              header |-> IF hasHeader /\ Len(disk) > 0 THEN <<disk[1]>> ELSE <<>>,
-             rows |-> IF hasHeader /\ Len(disk) > 0 THEN Tail(disk) ELSE disk]
-  /\ pc' = "reading" /\ buf' = <<>> /\ UNCHANGED disk
+             rows |-> IF hasHeader /\ Len(disk) > 0 THEN Tail(disk) ELSE disk])
 \* one row is converted; the file is not touched
-StepRow ==
-  /\ pc = "reading" /\ Len(buf) < Len(job.rows)
-  /\ LET row == job.rows[Len(buf) + 1] IN
-     IF RowFails(job.c, job.meth, job.md, row, job.col)
-     THEN pc' = "failed" /\ UNCHANGED <<disk, buf, job>>
-     ELSE buf' = Append(buf, ConvertRow(job.c, job.meth, job.md, row, job.col)) /\ UNCHANGED <<disk, pc, job>>
+StepRow == BM!StepRowG
 \* only after the last row: re-open for writing and write everything
-WriteAll ==
-  /\ pc = "reading" /\ Len(buf) = Len(job.rows)
-  /\ disk' = job.header \o buf /\ pc' = "done" /\ UNCHANGED <<buf, job>>
+WriteAll == BM!WriteAllG
 
 \* C16, atomicity clause: while rows are being converted, and after a failure, the file is what it was
 Disk0 == job.header \o job.rows
